@@ -21,7 +21,34 @@ impl<T> Drop for DropGuard<T> {
 
 /// drop `v` in place and report whether `secret` (or any 4-byte window of it with at least two non-zero
 /// bytes) survives at the same place in its storage
-fn drop_and_inspect<T>(v: T, secret: &[u8]) -> String {
+fn drop_and_inspect<T: Clone>(v: T, secret: &[u8]) -> String {
+    // first: clones of the value placed at every address residue its alignment allows (a wipe must not depend on where
+    // the object lives: behind a tag byte, inside an Option, in a packed record)
+    {
+        let n = size_of::<T>();
+        let al = std::mem::align_of::<T>();
+        let mut buf = vec![0u64; (n + 64) / 8 + 2];
+        let base = buf.as_mut_ptr() as *mut u8;
+        for off in 0..16usize {
+            if off % al != 0 { continue; }
+            unsafe {
+                let slot = base.add(off) as *mut T;
+                std::ptr::write(slot, v.clone());
+                let before: Vec<u8> = (0..n).map(|i| std::ptr::read_volatile(base.add(off + i))).collect();
+                std::ptr::drop_in_place(slot);
+                let after: Vec<u8> = (0..n).map(|i| std::ptr::read_volatile(base.add(off + i))).collect();
+                if !secret.iter().all(|b| *b == 0) {
+                    for o in (0..=n.saturating_sub(secret.len())).filter(|o| &before[*o..*o + secret.len()] == secret) {
+                        for j in 0..=secret.len().saturating_sub(4) {
+                            let chunk = &secret[j..j + 4];
+                            if chunk.iter().filter(|b| **b != 0).count() >= 2 && &after[o + j..o + j + 4] == chunk { return format!("leak-at-offset-{}", off) }
+                        }
+                    }
+                }
+                for i in 0..n { std::ptr::write_volatile(base.add(off + i), 0); }
+            }
+        }
+    }
     let mut m = ManuallyDrop::new(v);
     let p = &*m as *const T as *const u8;
     let n = size_of::<T>();
